@@ -122,6 +122,42 @@ def rule_a(ctx):
                 for x in b2.atoms(a, through_calls=False):
                     if x[0] == "const":
                         consts.add(x[1])
+    # for <a> the `name` attribute counts: the flag that enables it is set on every path through the `a` arm, before
+    # anything in the arm can leave it (not, say, inside the loop that looks for href and stops at the first hit)
+    from .C03 import decode_atom
+    a_target = None
+    for a in sorted(pdn.reachable()):
+        tt = pdn.term(a)
+        if tt["k"] != "switch":
+            continue
+        neg, src = pdn.switch_source(a)
+        if src[0] == "bin" and src[1]["bin"] == "Eq":
+            for side in ("a", "b"):
+                ints = [x[1] for x in pdn.atoms(src[1][side], through_calls=False) if x[0] == "int"]
+                other = pdn.atoms(src[1]["b" if side == "a" else "a"], through_calls=False)
+                if ints and any(x[0] == "field" and x[2] == "local" for x in other) and decode_atom(ints[0]) == "a":
+                    for s in pdn.succ(a):
+                        if edge_is_true(pdn, a, s)[0] is True:
+                            a_target = s
+    if ctx.check(a_target is not None, "C14-A", "a-arm:found", pdn.span, pdn.id, "no element-name test for <a>"):
+        flags = []
+        for l, loc in enumerate(pdn.locals):
+            if loc["ty"] != "bool":
+                continue
+            ds = [r for r in pdn.defs()[l] if r[0] == "stmt" and r[1] in pdn.reachable()]
+            trues = [r for r in ds if (op_const((r[3].get("rv") or {}).get("use") or {}) or {}).get("v") == "true"]
+            if trues and all(r[1] in pdn.reach_from(a_target) for r in trues) and len(ds) == len(pdn.defs()[l]):
+                # read by the fragment lookup (a switch on the flag next to the "name" comparison)
+                readers = [x for x in pdn.reachable() if pdn.term(x)["k"] == "switch" and pdn.switch_source(x)[1][0] == "place" and
+                           is_bare(pdn.switch_source(x)[1][1]) and pdn.switch_source(x)[1][1]["l"] == l]
+                if readers:
+                    flags.append((l, trues, readers))
+        if ctx.check(len(flags) >= 1, "C14-A", "a-arm:name-flag", pdn.term(a_target)["span"], pdn.id, "no flag enabling <a name=..>"):
+            for (l, trues, readers) in flags[:1]:
+                tb = {r[1] for r in trues}
+                escaped = [x for x in readers if x in pdn.reach_from(a_target, avoid=tb)]
+                ctx.check(not escaped, "C14-A", "a-arm:name-flag-set-on-every-path", trues[0][3]["span"], pdn.id,
+                          "the flag that makes <a name=..> count as a fragment can be skipped on some path through the <a> arm")
     ctx.check(any('"id"' in c for c in consts) and any('"name"' in c for c in consts), "C14-A",
               "fragment-from-id-or-name", pdn.span, pdn.id, "attribute-name comparisons found: %s" %
               sorted(c for c in consts if c.startswith('"'))[:12])
